@@ -124,6 +124,19 @@ def main(argv: list[str]) -> int:
             if hasattr(mod, "thorough"):
                 mod.thorough(ctx)
     except AnalysisError as e:
+        kf0 = load_known_findings()
+        fresh = [o for o in (ctx.violations if ctx is not None else []) if not is_known(kf0, prop, o)]
+        if fresh:
+            # violations established before the analysis had to stop are definite: report them (exit 1); the part of
+            # the pack that could not be analysed is named, not counted as passed
+            print(f"ANALYSIS-INCOMPLETE property={prop} {e}")
+            wall = time.time() - t0
+            write_evidence(ctx, wall, seed, fresh, [], extra={"analysis_incomplete": str(e)})
+            for o in fresh:
+                print(f"  {o.site}: rule {o.rule} at {o.construct}: found {o.found} ; required {o.required}")
+            path = write_violation_file(ctx, fresh)
+            print(f"VIOLATION property={prop} replay={path}")
+            return 1
         print(f"ANALYSIS-ERROR property={prop} {e}")
         if ctx is None:
             ctx = Ctx(prop, a.tier, Repo.__new__(Repo))
